@@ -9,7 +9,9 @@ package coinset
 //@   ensures result != nil && fresh(result) && result.coinList != nil && fresh(result.coinList) && list.coins(*result.coinList)
 //@   ensures result.totalValue == list.sumv(*result.coinList) && result.totalValueAge == list.sumva(*result.coinList) && list.len(*result.coinList) == len(coins)
 //@   ensures $calls_PushCoin == len(coins)
+//@   ensures forall k :: 0 <= k && k < len(coins) ==> list.tagat(*result.coinList, k) == coins[k].tag && list.refat(*result.coinList, k) == coins[k].ref
 //@   modifies nothing
+//@   loop 1 invariant forall k :: 0 <= k && k < $i ==> list.tagat(*newCoinSet.coinList, k) == coins[k].tag && list.refat(*newCoinSet.coinList, k) == coins[k].ref
 //@   loop 1 invariant newCoinSet != nil && fresh(newCoinSet) && newCoinSet.coinList != nil && fresh(newCoinSet.coinList) && list.coins(*newCoinSet.coinList)
 //@   loop 1 invariant newCoinSet.totalValue == list.sumv(*newCoinSet.coinList) && newCoinSet.totalValueAge == list.sumva(*newCoinSet.coinList) && list.len(*newCoinSet.coinList) == $i && $calls_PushCoin == $i
 //@   assert after PushCoin#1: $arg0 == newCoinSet && $arg1.tag == coins[$i1].tag && $arg1.ref == coins[$i1].ref
@@ -41,6 +43,7 @@ package coinset
 //@   ensures cs.coinList == old(cs.coinList) && list.coins(*cs.coinList) && list.len(*cs.coinList) == old(list.len(*cs.coinList)) - 1
 //@   ensures cs.totalValue == list.sumv(*cs.coinList) && cs.totalValueAge == list.sumva(*cs.coinList)
 //@   ensures result.tag == old(e.Value.tag) && result.ref == old(e.Value.ref)
+//@   ensures cs.totalValue == old(cs.totalValue) - coin.v(old(e.Value.tag), old(e.Value.ref)) && cs.totalValueAge == old(cs.totalValueAge) - coin.va(old(e.Value.tag), old(e.Value.ref))
 //@   modifies cs.totalValue, cs.totalValueAge, *cs.coinList, *e
 
 //@ func coinset.(*CoinSet).PopCoin
@@ -50,6 +53,7 @@ package coinset
 //@   ensures cs.totalValue == list.sumv(*cs.coinList) && cs.totalValueAge == list.sumva(*cs.coinList)
 //@   ensures old(list.len(*cs.coinList)) == 0 ==> result == nil && *cs.coinList == old(*cs.coinList) && cs.totalValue == old(cs.totalValue) && cs.totalValueAge == old(cs.totalValueAge)
 //@   ensures old(list.len(*cs.coinList)) > 0 ==> list.len(*cs.coinList) == old(list.len(*cs.coinList)) - 1 && $calls_Back == 1 && $calls_removeElement == 1
+//@   ensures old(list.len(*cs.coinList)) > 0 ==> cs.totalValue == old(cs.totalValue) - coin.v(old(list.tagat(*cs.coinList, list.len(*cs.coinList) - 1)), old(list.refat(*cs.coinList, list.len(*cs.coinList) - 1))) && cs.totalValueAge == old(cs.totalValueAge) - coin.va(old(list.tagat(*cs.coinList, list.len(*cs.coinList) - 1)), old(list.refat(*cs.coinList, list.len(*cs.coinList) - 1)))
 
 //@ func coinset.(*CoinSet).ShiftCoin
 //@   requires cs.coinList != nil && list.coins(*cs.coinList)
@@ -58,6 +62,7 @@ package coinset
 //@   ensures cs.totalValue == list.sumv(*cs.coinList) && cs.totalValueAge == list.sumva(*cs.coinList)
 //@   ensures old(list.len(*cs.coinList)) == 0 ==> result == nil && *cs.coinList == old(*cs.coinList) && cs.totalValue == old(cs.totalValue) && cs.totalValueAge == old(cs.totalValueAge)
 //@   ensures old(list.len(*cs.coinList)) > 0 ==> list.len(*cs.coinList) == old(list.len(*cs.coinList)) - 1 && $calls_Front == 1 && $calls_removeElement == 1
+//@   ensures old(list.len(*cs.coinList)) > 0 ==> cs.totalValue == old(cs.totalValue) - coin.v(old(list.tagat(*cs.coinList, 0)), old(list.refat(*cs.coinList, 0))) && cs.totalValueAge == old(cs.totalValueAge) - coin.va(old(list.tagat(*cs.coinList, 0)), old(list.refat(*cs.coinList, 0)))
 
 //@ func coinset.(*CoinSet).Num
 //@   requires cs.coinList != nil
@@ -163,6 +168,8 @@ package coinset
 //@   ensures err == nil ==> unbox(result0, "coinset.*CoinSet").totalValue == list.sumv(*unbox(result0, "coinset.*CoinSet").coinList) && unbox(result0, "coinset.*CoinSet").totalValueAge == list.sumva(*unbox(result0, "coinset.*CoinSet").coinList)
 //@   ensures err == nil ==> list.len(*unbox(result0, "coinset.*CoinSet").coinList) >= 1
 //@   ensures err == nil ==> list.len(*unbox(result0, "coinset.*CoinSet").coinList) <= s.MaxInputs
+//@   ensures err == nil && $ret1_CoinSelect#1 == nil ==> (unbox(result0, "coinset.*CoinSet").totalValue == targetValue || unbox(result0, "coinset.*CoinSet").totalValue >= targetValue + s.MinChangeAmount)
+//@   uses psumv_ext2, list_sumv_def
 //@   modifies nothing
 //@   decreases len(coins)
 //@   loop 1 invariant 0 <= i && i <= len(possibleCoins) && len(possibleCoins) == len(coins) && fresh(possibleCoins) && cutoffIndex == -1
@@ -183,4 +190,5 @@ package coinset
 //@   loop 5 invariant extendedCoins != nil && fresh(extendedCoins) && extendedCoins.coinList != nil && fresh(extendedCoins.coinList) && list.coins(*extendedCoins.coinList)
 //@   loop 5 invariant extendedCoins.totalValue == list.sumv(*extendedCoins.coinList) && extendedCoins.totalValueAge == list.sumva(*extendedCoins.coinList)
 //@   loop 5 invariant list.len(*extendedCoins.coinList) >= 1 && list.len(*extendedCoins.coinList) <= s.MaxInputs
+//@   loop 5 invariant extendedCoins.totalValue == targetValue || extendedCoins.totalValue >= targetValue + s.MinChangeAmount
 //@   loop 5 decreases cutoffIndex - n
